@@ -66,7 +66,39 @@ def check(case):
             check_round(case, state)
         except PropertyViolation as v:
             raise PropertyViolation("after-second-inplace-update:" + v.bucket, "after a second in-place parameter update (back to the first values): " + v.message, v.detail)
+    sparse_history(case)
     return r
+
+
+def sparse_history(case):
+    """every parameter set evaluated through ONE entry point only, exactly once, on a fresh object per entry point (the rounds above
+    call every entry point several times per parameter set, which hides state kept between calls):
+    A -> B -> (weights of B, biases of A, phase network of A) -> A"""
+    if not case.get("am2") or case["n"] > 4:
+        return
+    n = case["n"]
+    V = R.bits(n)
+    mixed_am = dict(case["am2"], b=case["am"]["b"], c=case["am"]["c"], d=case["am"]["d"])
+    seq = [("A", case["am"], case["ph"]), ("B", case["am2"], case["ph2"]), ("weights of B with biases of A", mixed_am, case["ph"]), ("A again", case["am"], case["ph"])]
+    refs = [R.rho_ref(R.net_from_case(a_), R.net_from_case(p_), V) for _, a_, p_ in seq]
+    entry = {
+        "rho": (lambda st_, sp: R.lib_to_c(st_.rho(sp, sp)), lambda r: r),
+        "normalization": (lambda st_, sp: st_.normalization(sp).double().reshape(1) + 0j, lambda r: r.diagonal().real.sum().reshape(1) + 0j),
+        "probability": (lambda st_, sp: st_.probability(sp).double() + 0j, lambda r: r.diagonal().real + 0j),
+        "rho-paired": (lambda st_, sp: R.lib_to_c(st_.rho(sp, torch.roll(sp, 1, 0), expand=False)), lambda r: r[torch.arange(2 ** n), torch.roll(torch.arange(2 ** n), 1, 0)]),
+    }
+    for name, (call, want) in entry.items():
+        state = gen.build_state(case)
+        space = state.generate_hilbert_space()
+        for (label, a_, p_), r in zip(seq, refs):
+            gen.set_net(state.rbm_am, a_)
+            gen.set_net(state.rbm_ph, p_)
+            got, w = call(state, space), want(r)
+            d = r.diagonal().real
+            sc_ = float(d.max())
+            require(bool(torch.all((got - w).abs() <= 1e-6 * sc_ + 1e-300)), f"sparse-history:{name}",
+                    f"{name} evaluated once per parameter set (history A -> B -> weights of B with biases of A -> A) is wrong for parameter set '{label}'",
+                    worst=float((got - w).abs().max()), scale=sc_)
 
 
 def check_round(case, state):
